@@ -130,7 +130,7 @@ PROPS = {
     "C04": {
         "pf": True,
         "n": {"quick": 250, "thorough": 8000},
-        "cone": ["Bytes", "BytesLemmas", "Regex", "Generated", "Channel", "Network", "NetworkAbs", "NetworkLemmas", "NetworkTwins", "NetworkHistory", "NetworkHistoryLemmas", "Replay"],
+        "cone": ["Bytes", "BytesLemmas", "Regex", "Generated", "Channel", "Network", "NetworkAbs", "NetworkLemmas", "NetworkTwins", "NetworkHistory", "NetworkHistoryLemmas", "Replay", "DecideLang", "GeneratedSkel", "Decide"],
         "rx": True,
         "rule": "network.Driver over the simulated transport against a privilege-tree device: random rooted labelled trees of 1-6 levels (with and "
                 "without authenticated edges, with/without secondary secret), every kind of start mode / default level, histories of 1-6 operations "
@@ -145,7 +145,7 @@ PROPS = {
                       "every iteration order of Go's maps, every (current, target) pair: the DFS returns the unique tree path and the acquire loop drives "
                       "the device along it with exactly the path's commands (graph induction + loop invariant, unbounded). The transcription of "
                       "driver/network/*.go is tied to the code by replaying the logged schedule of real sessions.",
-        "level_note": "The navigation theorem is stated at the level of whole exchanges (NetworkAbs); the refinement from exchanges to byte-level reads is "
+        "level_note": "C04_process_acquire_is_source: processAcquirePriv is translated statement by statement from the Go AST on every run and its interpretation is proved equal to the model's process_acquire for every map, cached level, target and prompt. The navigation theorem is stated at the level of whole exchanges (NetworkAbs); the refinement from exchanges to byte-level reads is "
                       "C01's phase lemma and is not yet composed with it mechanically. Hypotheses: prompts identify levels uniquely, sibling commands "
                       "distinct, no level named by the empty string (found by the proof).",
         "assumptions": [],
